@@ -216,8 +216,34 @@ def measure_draws(ctx, cfg, seed):
     return t, dc.per_stage
 
 
+def corners(ctx):
+    # corners of the cross product: a power law of index exactly 1 (its own sampling branch) is as reproducible under a seed as any
+    # other spectrum; a run with BOTH channels switched off still returns its table (geometry, spectrum, tau and decay columns)
+    S_ = __import__("nuspacesim").config.Simulation
+    cfg1 = make_cfg("Diffuse", "power", "none", True, False, 525.0, 60)
+    cfg1.simulation.spectrum = S_.PowerSpectrum(index=1.0, lower_bound=7.5, upper_bound=10.0)
+    try:
+        ta, tb_ = run_compute(cfg1, 4242, "synchronous"), run_compute(cfg1, 4242, "synchronous")
+        ctx.case(("index-1-reproducible",)); ctx.count("index_one_seeded_pairs")
+        okp, whyp = tables_equal(ta, tb_)
+        if not okp:
+            ctx.violation("compute", "seeded-run-not-reproducible", f"two runs with the same seed and a power-law spectrum of index 1 differ: {whyp}",
+                          {"spectrum": cfg1.simulation.spectrum.model_dump(), "seed": 4242, "thrown": 60})
+    except Exception as e:  # noqa
+        ctx.violation("compute", "raises", f"power-law index 1 run raises {type(e).__name__}: {str(e)[:100]}", {"spectrum": "powerspectrum index 1"})
+    for mode_ in ("Diffuse", "Target"):
+        cfg00 = make_cfg(mode_, "mono", "none", False, False, 525.0, 60 if mode_ == "Diffuse" else 400)
+        try:
+            t00 = run_compute(cfg00, 7, "synchronous")
+            ctx.case(("both-channels-off", mode_)); ctx.count("both_channels_off_runs")
+            check_structure(ctx, cfg00, t00, f"{mode_}/both-channels-off")
+        except Exception as e:  # noqa
+            ctx.violation("compute", "raises", f"a run with both channels switched off raises {type(e).__name__}: {str(e)[:100]}", {"run": f"{mode_}/optical off/radio off"})
+
+
 def run(ctx: Ctx):
     import dask
+    corners(ctx)
     rng = ctx.rng
     from xsched import make_get
     n = 120 if not ctx.thorough else 300
@@ -405,28 +431,6 @@ def run(ctx: Ctx):
                     ctx.violation("compute", "zero-thrown-nonempty", "N=0 run has rows", {"run": lab})
             except Exception as e:  # noqa
                 ctx.violation("compute", "zero-survivors-fails", f"a run in which no trajectory survives raises {type(e).__name__}: {str(e)[:120]}", {"run": lab})
-    # (e0) corners of the cross product: a power law of index exactly 1 (its own sampling branch) is as reproducible under a seed as any
-    # other spectrum; a run with BOTH channels switched off still returns its table (geometry, spectrum, tau and decay columns)
-    S_ = __import__("nuspacesim").config.Simulation
-    cfg1 = make_cfg("Diffuse", "power", "none", True, False, 525.0, 60)
-    cfg1.simulation.spectrum = S_.PowerSpectrum(index=1.0, lower_bound=7.5, upper_bound=10.0)
-    try:
-        ta, tb_ = run_compute(cfg1, 4242, "synchronous"), run_compute(cfg1, 4242, "synchronous")
-        ctx.case(("index-1-reproducible",)); ctx.count("index_one_seeded_pairs")
-        okp, whyp = tables_equal(ta, tb_)
-        if not okp:
-            ctx.violation("compute", "seeded-run-not-reproducible", f"two runs with the same seed and a power-law spectrum of index 1 differ: {whyp}",
-                          {"spectrum": cfg1.simulation.spectrum.model_dump(), "seed": 4242, "thrown": 60})
-    except Exception as e:  # noqa
-        ctx.violation("compute", "raises", f"power-law index 1 run raises {type(e).__name__}: {str(e)[:100]}", {"spectrum": "powerspectrum index 1"})
-    for mode_ in ("Diffuse", "Target"):
-        cfg00 = make_cfg(mode_, "mono", "none", False, False, 525.0, 60 if mode_ == "Diffuse" else 400)
-        try:
-            t00 = run_compute(cfg00, 7, "synchronous")
-            ctx.case(("both-channels-off", mode_)); ctx.count("both_channels_off_runs")
-            check_structure(ctx, cfg00, t00, f"{mode_}/both-channels-off")
-        except Exception as e:  # noqa
-            ctx.violation("compute", "raises", f"a run with both channels switched off raises {type(e).__name__}: {str(e)[:100]}", {"run": f"{mode_}/optical off/radio off"})
     # (e'') detector so high / limb angle so wide that the viewing geometry degenerates (every thrown trajectory is invalid):
     # still an empty but valid table
     for alt_d, limb_d in ((99000.0, 7.0), (35786.0, 20.0), (120000.0, 7.0)):
